@@ -1887,7 +1887,10 @@ class rx:
         return self._apply_operator(operator.or_, other)
     def __rshift__(self, other):
         return self._apply_operator(operator.rshift, other)
-    def __pow__(self, other):
+    def __pow__(self, other, modulo=None):
+        if modulo is not None:
+            # three-argument pow(self, other, modulo)
+            return self._apply_operator(pow, other, modulo)
         return self._apply_operator(operator.pow, other)
     def __sub__(self, other):
         return self._apply_operator(operator.sub, other)
